@@ -34,6 +34,11 @@ func (w *jsonWorld) Gen(seed uint64, tier string) *Plan {
 	if w.prop == "C11" && r.P(1, 6) {
 		return genVals(r, tier) // the value-types sub-world
 	}
+	if w.prop == "C12" && r.P(1, 50) {
+		// key types that read their text form their own way (encoding.TextUnmarshaler): a probe of its own
+		return &Plan{World: "json-textkeys", Cfg: Cfg{Kind: "linkedhashmap", Elem: "string", Mode: "text-keys"}, Ops: []Op{{ID: 0, N: "TextKeys", A: []int{r.Intn(1 << 20)}}},
+			Faults: []Fault{{Kind: "F17-foreign-writer", At: 0}}}
+	}
 	cfg := genCfg(r, allKinds, tier)
 	if cfg.Dom > 32 {
 		cfg.Dom = []int{4, 8, 12, 16, 24, 32}[r.Intn(6)]
@@ -287,6 +292,18 @@ func checkpoint(s Subject, o *Oracle) ([]byte, bool) {
 func (w *jsonWorld) Exec(p *Plan, st *RunStats) *Violation {
 	if p.World == "json-vals" {
 		return execVals(p, st)
+	}
+	if p.World == "json-textkeys" {
+		attach(p)
+		start := stepCount
+		o := NewOracle("C12", "C12")
+		if len(p.Ops) == 1 && len(p.Ops[0].A) == 1 {
+			safely(o, p.Ops[0], func() { o.cur = p.Ops[0]; textKeyProbe(o, p.Ops[0].A[0]) })
+			st.Ops, st.NonTrivial = 1, true
+			st.Fault("F17-foreign-writer")
+		}
+		st.Steps, st.Unjudged = stepCount-start, o.Unj
+		return o.V
 	}
 	attach(p)
 	start := stepCount
